@@ -60,6 +60,7 @@ type Scenario struct {
 	CrashPoint   string `json:"crashpoint"`   // ready|send1|presave|saved|snapinstalled|applied|send2|preadvance|advanced|snapshot
 	Crash2       int    `json:"crash2"`       // a second node crashed (idle) together with the first: minority of 5
 	RestartPeers string `json:"restartpeers"` // "all": loadRaft(partition node ids) as the allocator does | "none": loadRaft(nil)
+	SnapAfter    bool   `json:"snapafter"`    // after the restart and two more writes every node is asked for a local snapshot again
 	SlowSnapMs   int    `json:"slowsnapms"`   // serializing the index for a snapshot takes this long (0 = as fast as it is)
 	SnapshotAt   int    `json:"snapshotat"`   // request a local snapshot on every node after this many client writes (0 = never)
 	Partition    int    `json:"partition"`    // isolate this node (1..N) during the fault window (0 = none)
@@ -996,6 +997,22 @@ func main() {
 		}
 	}
 	client(2)
+	if sc.SnapAfter {
+		// a replica that restarted from its stored snapshot snapshots again: what it stores must describe the group
+		for _, n := range w.nodes {
+			if g := w.raftOf(n); g != nil {
+				func() {
+					done := make(chan struct{})
+					go func() { g.VerifRequestSnapshot(0); close(done) }()
+					select {
+					case <-done:
+					case <-time.After(300 * time.Millisecond):
+					}
+				}()
+			}
+		}
+		client(1)
+	}
 	// convergence: every live node applied the same index, and at least everything acknowledged
 	conv := 0
 	why := ""
